@@ -231,17 +231,18 @@ func guarded(f func() result) (r result) {
 
 type pkgRec struct {
 	in   *PkgIn
-	av   *vdb.AvailableVersion // pristine object (oracle set)
+	av   *vdb.AvailableVersion // object of the real code for the match oracle (the loader's, else a substitute; may be nil)
 	id   int
-	pn   string
-	slot string
+	name string // PF without its PMS version (harness's own cut)
+	pn   string // category "/" name
+	slot string // comparable key of the SLOT text before "/" (harness's own reading)
 }
 
 // atom term for a dependency atom of package ctx (nil = the "requested" context)
 func matchIDs(da *depend.DependAtom, ctxUse atom.UseFlagMap, pkgs []*pkgRec, byName func(p *pkgRec) bool) []string {
 	ids := []string{}
 	for _, p := range pkgs {
-		if !byName(p) {
+		if !byName(p) || p.av == nil {
 			continue
 		}
 		if len(da.FilterAtoms([]atom.Atom{p.av}, ctxUse)) == 1 {
@@ -428,53 +429,97 @@ func Run(in Input) (c *common.Case) {
 		os.RemoveAll(tmp2)
 	}
 
-	// ---- oracles: a pristine installed set, the enumeration order, parse trees, match relation
-	pristine, perr := vdb.GetInstalledPackageList(root)
-	if perr != nil {
-		panic(fmt.Sprintf("generated VDB is not readable: %v", perr))
-	}
+	// ---- observation: what the loader under test makes of the database (r5b_db.go)
+	loaded := []loadedRec{}
 	byStr := map[string]*vdb.AvailableVersion{}
-	for _, sl := range pristine.Atoms {
-		for _, a := range *sl {
-			av := a.(*vdb.AvailableVersion)
-			byStr[av.String()] = av
+	loaderErr := ""
+	func() {
+		defer func() {
+			if e := recover(); e != nil {
+				loaderErr = fmt.Sprint("panic: ", e)
+			}
+		}()
+		set, err := vdb.GetInstalledPackageList(root)
+		if err != nil {
+			loaderErr = err.Error()
+			return
 		}
-	}
+		loaded, byStr = loaderView(set)
+	}()
+	// ---- the database of the case: the generator's own directories, read by the harness itself
 	// canonical package order: sorted by cat/pf
 	idx := make([]int, len(in.Pkgs))
 	for i := range idx {
 		idx[i] = i
 	}
-	sort.Slice(idx, func(a, b int) bool {
+	sort.SliceStable(idx, func(a, b int) bool {
 		x, y := in.Pkgs[idx[a]], in.Pkgs[idx[b]]
 		return string(x.Cat)+"/"+string(x.PF) < string(y.Cat)+"/"+string(y.PF)
 	})
 	pkgs := make([]*pkgRec, 0, len(idx))
 	idOf := map[string]int{}
 	complete := true
-	for n, i := range idx {
+	seenKey := map[string]bool{}
+	unsplit := 0
+	for _, i := range idx {
 		p := &in.Pkgs[i]
 		s := string(p.Cat) + "/" + string(p.PF)
-		av := byStr[s]
-		if av == nil { // dropped by AtomSet.Add (same name and slot as another directory): outside wf
-			complete = false
-			continue
+		name, _, ok := pfSplit(string(p.PF))
+		if !ok { // no PMS reading of the directory name: outside wf (name_tied)
+			name = string(p.PF)
+			unsplit++
 		}
-		rec := &pkgRec{in: p, av: av, id: len(pkgs), pn: av.PackageName(), slot: av.GetSlot()}
-		_ = n
-		idOf[s] = rec.id
+		slot := slotOf(string(p.Slot))
+		rec := &pkgRec{in: p, id: len(pkgs), name: name, pn: string(p.Cat) + "/" + name, slot: slotKey(slot)}
+		if _, dup := idOf[s]; dup || seenKey[rec.pn+"\x00"+rec.slot] { // one directory written twice, or two with one name and slot
+			complete = false
+		}
+		seenKey[rec.pn+"\x00"+rec.slot] = true
+		if _, dup := idOf[s]; !dup {
+			idOf[s] = rec.id
+		}
+		// the object of the real code the match oracle needs: the loader's, else a substitute
+		if rec.av = byStr[s]; rec.av == nil {
+			rec.av = substituteAV(path.Join(root, "var/db/pkg", s), p, slot)
+		}
 		pkgs = append(pkgs, rec)
 	}
-	// enumeration order as the implementation saw it
-	enum := []string{}
+	// the harness's own directory listing must be what it wrote
+	own := ownListing(root)
+	{
+		want := make([]string, 0, len(idOf))
+		for s := range idOf {
+			want = append(want, s)
+		}
+		sort.Strings(want)
+		if strings.Join(want, "\n") != strings.Join(own, "\n") {
+			panic(fmt.Sprintf("the generated VDB is not what was written: %q vs %q", own, want))
+		}
+	}
+	// enumeration as the implementation saw it: its membership is an observation (o_listed), its
+	// ORDER the oracle c_enum -- taken over only if it is a permutation of the harness's own listing
+	listed := []string{}
+	enumReal := []string{}
 	pkgdb := path.Join(root, "/var/db/pkg")
 	cats, _ := fs.Readdirnames(pkgdb)
 	for _, cat := range cats {
 		names, _ := fs.Readdirnames(path.Join(pkgdb, cat))
 		for _, nv := range names {
+			listed = append(listed, cat+"/"+nv)
 			if id, ok := idOf[cat+"/"+nv]; ok {
-				enum = append(enum, q.N(uint64(id)))
+				enumReal = append(enumReal, q.N(uint64(id)))
 			}
+		}
+	}
+	sort.Strings(listed)
+	enum := enumReal
+	enumIsPerm := strings.Join(listed, "\n") == strings.Join(own, "\n")
+	if !enumIsPerm || len(enumReal) != len(pkgs) {
+		// not a permutation (or a directory written twice): the case keeps a well-formed order oracle and
+		// the discrepancy shows in o_listed
+		enum = make([]string, len(pkgs))
+		for i := range enum {
+			enum[i] = q.N(uint64(i))
 		}
 	}
 	cnt := &counter{byText: map[string]map[string]bool{}}
@@ -484,7 +529,10 @@ func Run(in Input) (c *common.Case) {
 	misreads := []string{}
 	lenient := 0
 	for i, p := range pkgs {
-		ctxUse := p.av.GetUseFlagMap()
+		ctxUse := atom.UseFlagMap{} // oracle: the owning package's flag map, consulted by FilterAtoms for USE dependencies
+		if p.av != nil {
+			ctxUse = p.av.GetUseFlagMap()
+		}
 		files := make([]string, 4)
 		texts := make([]string, 4)
 		for k := 0; k < 4; k++ {
@@ -585,10 +633,10 @@ func Run(in Input) (c *common.Case) {
 				return
 			}
 			ids := matchIDs(da, atom.UseFlagMap{}, pkgs, func(p *pkgRec) bool {
-				if p.av.Name != da.Name {
+				if p.name != da.Name {
 					return false
 				}
-				return len(da.Category) == 0 || p.av.Category == da.Category
+				return len(da.Category) == 0 || string(p.in.Cat) == da.Category
 			})
 			term = q.Some(q.App("MkU", q.Hx(da.Category), q.Hx(da.Name), q.Bool(da.Blocker), q.List(ids)))
 		}()
@@ -616,10 +664,30 @@ func Run(in Input) (c *common.Case) {
 		fsTerms[i] = q.Pair(q.Hx(p), q.App("PDir", pk, pa))
 	}
 
-	obsTerm := q.App("C05.MkObs", resTerm(sysRes), resTerm(stageRes), resTerm(binSys), resTerm(binStage), resTerm(binStage2))
+	loadedTerms := make([]string, len(loaded))
+	for i, l := range loaded {
+		loadedTerms[i] = q.Pair(q.Hx(l.Str), q.Pair(q.Hx(l.Name), q.Hx(l.Slot)))
+	}
+	slotTerms := make([]string, len(pkgs))
+	for i, p := range pkgs {
+		slotTerms[i] = q.Hx(string(p.in.Slot))
+	}
+	obsTerm := q.App("C05.MkObs", resTerm(sysRes), resTerm(stageRes), resTerm(binSys), resTerm(binStage), resTerm(binStage2),
+		q.HxList(listed), q.List(loadedTerms))
 	c.Coq = q.App("C05.MkCase", q.Hx(root), q.List(fsTerms), q.Hx(profileDir), q.List(dict), q.HxList(atoms),
-		q.List(pkgTerms), q.List(enum), q.Bool(!in.NoBdeps), q.Bool(complete), q.List(textTerms), obsTerm)
-	desc["obs"] = map[string]interface{}{"system": sysRes, "stage": stageRes, "bin_system": binSys, "bin_stage": binStage, "bin_stage_reordered": binStage2}
+		q.List(pkgTerms), q.List(enum), q.Bool(!in.NoBdeps), q.Bool(complete), q.List(textTerms), q.List(slotTerms), obsTerm)
+	obsDesc := map[string]interface{}{"system": sysRes, "stage": stageRes, "bin_system": binSys, "bin_stage": binStage, "bin_stage_reordered": binStage2,
+		"readdir_listed": listed, "loader_returned": loaded}
+	if loaderErr != "" {
+		obsDesc["loader_error"] = loaderErr
+	}
+	desc["obs"] = obsDesc
+	// the database the verdict is stated against (for the reader of a replay)
+	dbDesc := make([]loadedRec, len(pkgs))
+	for i, p := range pkgs {
+		dbDesc[i] = loadedRec{string(p.in.Cat) + "/" + string(p.in.PF), p.pn, p.slot}
+	}
+	desc["database"] = dbDesc
 
 	// distinctness key: the input without the temporary directory
 	kb, _ := json.Marshal(in)
@@ -677,6 +745,37 @@ func Run(in Input) (c *common.Case) {
 	classes = append(classes, fmt.Sprintf("profile-nodes=%d", len(in.Prof)))
 	if !complete {
 		classes = append(classes, "slot-collision")
+	}
+	if unsplit > 0 {
+		classes = append(classes, "pf-without-pms-version")
+	}
+	if !enumIsPerm { // fs.Readdirnames did not list exactly the directories the harness sees
+		classes = append(classes, "readdir-not-a-permutation")
+	}
+	{ // input-distribution statistics of the loader-view class
+		hy, sub, diff := false, false, len(loaded) != len(pkgs)
+		for i, p := range pkgs {
+			for k := 0; k+1 < len(p.name); k++ {
+				if p.name[k] == '-' && isDigitByte(p.name[k+1]) {
+					hy = true
+				}
+			}
+			if strings.Contains(string(p.in.Slot), "/") {
+				sub = true
+			}
+			if !diff && (loaded[i].Str != string(p.in.Cat)+"/"+string(p.in.PF) || loaded[i].Name != p.pn || loaded[i].Slot != p.slot) {
+				diff = true
+			}
+		}
+		if hy {
+			classes = append(classes, "name-with-hyphen-digit")
+		}
+		if sub {
+			classes = append(classes, "sub-slot")
+		}
+		if diff && complete {
+			classes = append(classes, "loader-differs")
+		}
 	}
 	c.Classes = classes
 	// non-trivial: the closure has >= 2 members beyond the roots, or the run must fail
